@@ -416,6 +416,9 @@ def run(ctx: Ctx) -> int:
 
 
 def selftest(ctx: Ctx) -> int:
+    from .. import faultsim as _fs
+    refdc.ensure_ntlm_users()
+    _fs.selftest(ctx)
     from ..tracecheck import selftest_expect_reject
 
     good = [{"id": i, "L": 60, "limit": 60, "sched": [i + 1, 59 - i], "reads": [i + 1, 59 - i], "out": "same"} for i in range(10)]
